@@ -59,6 +59,19 @@ def h_permute_features(B, cls="EOF", n=4, p=3, perm=(2, 0, 1), rot=None, weights
     _cmp(B, f"feature permutation {perm}", m1, m2)
 
 
+def h_reverse_axis(B, n=4, axis="lat"):
+    """the same field with one feature axis stored in the opposite order (north-to-south latitudes): same value at the same label"""
+    X = da3d(B, "x", n, 2, 2)
+    m1 = _fit("EOF", X, "time")
+    Xr = X.isel({axis: slice(None, None, -1)})
+    m2 = _fit("EOF", Xr, "time")
+    B.covers("Stacker._unstack_to_dataarray (non-ascending feature coordinate)")
+    _cmp(B, f"{axis} stored in reverse order", m1, m2)
+    r1 = m1.inverse_transform(m1.scores())
+    r2 = m2.inverse_transform(m2.scores())
+    B.eq(f"{axis} stored in reverse order: reconstruction at each label", r2, r1, ignore_order=True)
+
+
 def h_permute_samples(B, cls="EOF", n=4, p=2, perm=(2, 0, 3, 1), rot=None):
     cplx = cls == "ComplexEOF"
     X = da2d(B, "x", n, p, cplx)
@@ -172,6 +185,8 @@ def configs(tier):
     add("h_transpose", "EOF|transpose|order=lat,lon,time", order=("lat", "lon", "time"))
     add("h_permute_features", "EOFRotator|permute features", rot={"n_modes": 2, "power": 1})
     add("h_permute_features", "EOF|permute features|weights labelled by coordinate", weights=True)
+    add("h_reverse_axis", "EOF|3d|lat stored north-to-south", axis="lat")
+    add("h_reverse_axis", "EOF|3d|lon stored in reverse", axis="lon")
     add("h_permute_samples", "EOFRotator|permute samples", p=3, rot={"n_modes": 2, "power": 1})
     add("h_names", "EOFRotator|names=s,f", p=3, rot={"n_modes": 2, "power": 1})
     add("h_names", "EOF|names=feature,sample (swapped literals)", names=("feature", "sample"))
